@@ -410,9 +410,8 @@ def fixup_ast_from_modifications(transformed_ast: ast.AST, original_ast: ast.Cal
                 return node
 
             self._update_copy()
-            n_old_args = len(orig_ast.args)
-            for a in node.args[n_old_args:]:
-                orig_ast.args.append(a)
+            # All of the arguments: a call back may have replaced one the user wrote
+            orig_ast.args = list(node.args)
             orig_ast.func = node.func
             orig_ast.keywords = node.keywords
 
